@@ -250,7 +250,49 @@ def replayHeap (j : Json) : Except String Json := do
   let ref := href (κ := Key) init parsed
   pure (Json.mkObj [("read", toJson got), ("ref", toJson ref)])
 
+def jOptN (o : Option Nat) : Json := match o with | some n => toJson n | none => Json.null
+
+/-- replay of a history of registrations and queries with an operator name on the registry machine.
+{"events": [["register", level, name, fid] | ["unregister", level, name] | ["query", cache, name, rest]]}
+ -> the factory id every query returns (null: NotImplementedError) when the cache key contains the
+ name only (`regRun .byName`), when it contains the resolved registration (`regRun .byInfo`), and
+ without any cache (`regRef`) -/
+def replayRegistry (j : Json) : Except String Json := do
+  let evs ← (← fld j "events").getArr?
+  let mut parsed : List RegEv := []
+  for e in evs.toList do
+    let a ← e.getArr?
+    match a.toList with
+    | [Json.str "register", l, n, f] => parsed := parsed ++ [RegEv.register (← getN l) (← getS n) (← getN f)]
+    | [Json.str "unregister", l, n] => parsed := parsed ++ [RegEv.unregister (← getN l) (← getS n)]
+    | [Json.str "query", c, n, x] => parsed := parsed ++ [RegEv.query (← getN c) (← getS n) (← getN x)]
+    | _ => throw s!"bad registry event {e.compress}"
+  let out (l : List (Option Nat)) : Json := Json.arr (l.map jOptN).toArray
+  pure (Json.mkObj [("byName", out (regRun .byName parsed)), ("byInfo", out (regRun .byInfo parsed)),
+                    ("ref", out (regRef parsed))])
+
+/-- the operator table of a PDE with several variables.
+{"vars": [{"name": v, "ops": [names]}, ...] (in the order of the PDE), "bcs": [[variable pattern, operator pattern], ...]
+ (`PDE.bcs` in dictionary order)} -> for the table keyed by (variable, operator) (`perVar`, the code as it
+ is) and by the operator only (`shared`): for every operator of every variable the index of the boundary
+ entry its implementation was built with (`servedBC`), and `bcsUsed`; `select`: what `PDE.bcs` selects -/
+def pdeTable (j : Json) : Except String Json := do
+  let vars ← getL (fun v => do pure ({ name := ← fldS v "name", ops := ← getL getS (← fld v "ops") } : VarSpec)) (← fld j "vars")
+  let bcs : BcKeys ← getL (fun b => do
+    let a ← b.getArr?
+    match a.toList with
+    | [x, y] => pure (← getS x, ← getS y)
+    | _ => throw "bad bc key") (← fld j "bcs")
+  let pairs : List (String × String) := vars.flatMap (fun v => v.ops.map (fun o => (v.name, o)))
+  let one (k : TableKey) : Json := Json.mkObj [
+    ("served", Json.arr (pairs.map (fun p => Json.arr #[Json.str p.1, Json.str p.2,
+        match servedBC k bcs vars p.1 p.2 with | some (some i) => toJson i | _ => Json.null])).toArray),
+    ("used", toJson (bcsUsed k bcs vars))]
+  pure (Json.mkObj [("perVar", one .perVar), ("shared", one .shared),
+    ("select", Json.arr (pairs.map (fun p => Json.arr #[Json.str p.1, Json.str p.2, jOptN (selectBC bcs p.1 p.2)])).toArray)])
+
 def handlers : List (String × Handler) :=
   [("c04.keyeq", keyEq), ("c04.speceq", specEq), ("c04.numhash", numHash),
-   ("c04.leafhash", leafHash), ("c04.replay_cache", replayCache), ("c04.replay_heap", replayHeap)]
+   ("c04.leafhash", leafHash), ("c04.replay_cache", replayCache), ("c04.replay_heap", replayHeap),
+   ("c04.replay_registry", replayRegistry), ("c04.pde_table", pdeTable)]
 end PdeVerif.Drv.C04
